@@ -1,4 +1,4 @@
-import NeumannModel.RelTx.Lemmas
+import NeumannModel.RelTx.Restore
 /-
   C09 — relational transactions are all-or-nothing and writers exclude each other.
   ONLY property theorems and their non-vacuity examples.  Statements are at statement
@@ -8,13 +8,10 @@ import NeumannModel.RelTx.Lemmas
 namespace Neumann.RelTx.Props
 open Neumann.RelTx
 
-/-! ### scripts used by the witnesses and the non-vacuity examples
-    (`insert` is `begin; tx_insert; commit`, so it consumes transaction id 0) -/
+/-! The scripts used by the witnesses and the non-vacuity examples (`s0`, `setupIdx`, `setupPlain`,
+    `sThree`, `calmOps`) are defined at the end of `Restore.lean`
+    (`insert` is `begin; tx_insert; commit`, so it consumes a transaction id). -/
 
-def s0 : State := init 30000 60000
-/-- table 0 with a hash and a b-tree index on column 0, one committed row `[1,1]` (slab id 0) -/
-def setupIdx : List Op := [.createTable 2, .createIndex 0 0, .createBtree 0 0, .insert 0 [1, 1]]
-def setupPlain : List Op := [.createTable 2, .insert 0 [1, 1]]
 
 /-! ## finished transactions cannot be used again -/
 
@@ -86,7 +83,21 @@ theorem commit_permanent_vs_later_rollback_witness :
     (runRes s0 ops).getLast? = some .ok ∧
     (sB.tables 0).map (·.rows) = some [⟨true, [5, 1]⟩] ∧
     (step sB (.rollback 1)).2 = .ok ∧
-    ((step sB (.rollback 1)).1.tables 0).map (·.rows) = some [⟨true, [1, 1]⟩] := by decide
+    ((step sB (.rollback 1)).1.tables 0).map (·.rows) = some [⟨true, [1, 1]⟩] ∧
+    calm s0 ops = false := by decide
+
+/-- the index side of the same situation (known finding `duplicate_row_in_index_answer`): after A's
+    rollback the hash and b-tree entries of B's committed value AND of A's restored value are
+    both present — a range query returns the row twice, the equality query on the committed
+    value finds nothing although B committed it. -/
+theorem lock_expiry_rollback_index_witness :
+    let ops : List Op := setupIdx ++ [.begin, .begin,
+      .txUpdate 1 0 (.idEq 0) [(0, 4)], .tick 30001, .txUpdate 2 0 (.idEq 0) [(0, 5)], .commit 2, .rollback 1]
+    let fin := run s0 ops
+    (fin.tables 0).map (scanAnswer · (.ge 0 0)) = some [(0, [1, 1])] ∧
+    (fin.tables 0).map (select · (.ge 0 0)) = some [(0, [1, 1]), (0, [1, 1])] ∧
+    (fin.tables 0).map (·.hashE) = some [(0, 5, 0), (0, 1, 0)] ∧
+    calm s0 ops = false := by decide
 
 /-! ## writers exclude each other -/
 
@@ -158,9 +169,10 @@ theorem row_lock_exclusive_nontx (s : State) (A t i : Nat) (T : Table) (cond : C
     rw [h1]
     exact ⟨rfl, hrb⟩
 
-/-- "has modified a row" ⇒ holds its lock: after a successful `tx_update` / `tx_delete` by A every
-    row its condition matched is locked by A (from that statement's time on). -/
-theorem modified_row_locked (s : State) (A t n : Nat) (T : Table) (cond : Cond) (hT : s.tables t = some T) :
+/-- "has modified a row" ⇒ holds its lock, update / delete part, for ANY state: after a successful
+    `tx_update` / `tx_delete` by A every row its condition matched is locked by A (from that
+    statement's time on). -/
+theorem updated_deleted_row_locked (s : State) (A t n : Nat) (T : Table) (cond : Cond) (hT : s.tables t = some T) :
     (∀ upd, (txUpdate s A t cond upd).2 = .okN n →
       ∀ i ∈ matching T cond, holder (txUpdate s A t cond upd).1 t i = some A) ∧
     ((txDelete s A t cond).2 = .okN n → ∀ i ∈ matching T cond, holder (txDelete s A t cond).1 t i = some A) := by
@@ -188,11 +200,28 @@ theorem modified_row_locked (s : State) (A t n : Nat) (T : Table) (cond : Cond) 
     rw [holder_congr f.1 f.2.2.1 f.2.2.2.1]
     exact holder_lockAll s A t i _ hi
 
-/-- non-vacuity of `row_lock_exclusive` / `modified_row_locked`: A updates row 0, B's update and
-    delete of it, and a non-transactional update, all get `LockConflict` -/
-example : let s := run s0 (setupIdx ++ [.begin, .begin, .txUpdate 1 0 (.idEq 0) [(0, 4)]])
-    holder s 0 0 = some 1 ∧ (step s (.txUpdate 2 0 .all [(1, 0)])).2 = .err .lockConflict ∧
-    (step s (.txDelete 2 0 (.idEq 0))).2 = .err .lockConflict ∧
+/-- "has modified a row" ⇒ holds its lock, in every state reachable from the empty engine by ANY
+    sequence of statements: after a successful `tx_update` / `tx_delete` by A every row the
+    condition matched is locked by A, and after a successful `tx_insert` by A the row it created
+    (slab id = old table length) is locked by A — the `try_lock` whose result the code discards can
+    never fail, because locks only ever sit on rows that exist (`lr_run`) and the new id is fresh. -/
+theorem modified_row_locked (a b : Nat) (ops : List Op) (A t n : Nat) (T : Table) (cond : Cond)
+    (hT : (run (init a b) ops).tables t = some T) :
+    let s := run (init a b) ops
+    (∀ upd, (txUpdate s A t cond upd).2 = .okN n →
+      ∀ i ∈ matching T cond, holder (txUpdate s A t cond upd).1 t i = some A) ∧
+    ((txDelete s A t cond).2 = .okN n → ∀ i ∈ matching T cond, holder (txDelete s A t cond).1 t i = some A) ∧
+    (∀ vals, (txInsert s A t vals).2 = .okN n → n = T.rows.length ∧ holder (txInsert s A t vals).1 t n = some A) := by
+  intro s
+  have h := updated_deleted_row_locked s A t n T cond hT
+  exact ⟨h.1, h.2, fun vals hok => txInsert_locks_row (lr_run (lr_init a b) ops) hT hok⟩
+
+/-- non-vacuity of `row_lock_exclusive` / `modified_row_locked`: A updates row 0 and inserts row 1;
+    B's update and delete of either, and non-transactional statements, all get `LockConflict` -/
+example : let s := run s0 (setupIdx ++ [.begin, .begin, .txUpdate 1 0 (.idEq 0) [(0, 4)], .txInsert 1 0 [6, 6]])
+    holder s 0 0 = some 1 ∧ holder s 0 1 = some 1 ∧ (step s (.txUpdate 2 0 .all [(1, 0)])).2 = .err .lockConflict ∧
+    (step s (.txDelete 2 0 (.idEq 0))).2 = .err .lockConflict ∧ (step s (.txDelete 2 0 (.idEq 1))).2 = .err .lockConflict ∧
+    (step s (.txUpdate 2 0 (.eq 0 6) [(1, 0)])).2 = .err .lockConflict ∧
     (step s (.update 0 (.eq 0 4) [(1, 0)])).2 = .err .lockConflict ∧ (step s (.delete 0 .all)).2 = .err .lockConflict := by
   decide
 
@@ -293,22 +322,16 @@ theorem undo_records_preimage (s : State) (A t i : Nat) (T : Table) (r : Row) (x
       rfl
     case h4 => simp [deleteRow, hT, rowAt, hlt, hget]
 
-/-- `rollback_restores`, the part that holds (PARTIAL — see below for what is missing).
-    For ANY state and ANY open transaction A whose undo log names row `(t,i)` exactly once
-    (entry `u`; the other entries, before and after, are about other rows): after `rollback A`
-    the row is exactly `undoRow u` of its current content — i.e.
+/-- `rollback_restores` for ANY state, reachable or not, calm or not (PARTIAL: one undo entry).
+    For any open transaction A whose undo log names row `(t,i)` exactly once (entry `u`; the other
+    entries, before and after, are about other rows): after `rollback A` the row is exactly
+    `undoRow u` of its current content — i.e.
       * `UpdatedRow old`  and the row is alive   ⇒ alive with values `old`,
       * `DeletedRow old`  and the row is dead    ⇒ alive again with values `old`,
-      * `InsertedRow`                            ⇒ dead,
-    and by `undo_records_preimage` `old` is the row's content just before A's statement, so the
-    row is back at its pre-transaction image provided nobody else changed it since (which
-    `row_lock_exclusive` guarantees for updated/deleted rows until the lock times out).
-    MISSING for full strength: (1) rows written several times by the same transaction (the chain
-    of entries is not composed here); (2) the side condition "no other unfinished transaction
-    touched a row inserted by A" is necessary — `rollback_restores_witness`; (3) index entries:
-    restored only for indexes that existed when the statement ran — `rollback_index_restore_witness`,
-    `undo_ghost_btree_entry_witness`. The run-level claim is checked on the real engine by the
-    snapshot / committed-state / index oracles of `corr_reltx`. -/
+      * `InsertedRow`                            ⇒ dead.
+    MISSING here (and supplied, for the states reachable under the two side conditions, by
+    `rollback_restores` below): rows written several times by the same transaction, the fact that
+    nobody else changed the row since, and the index entries. -/
 theorem rollback_restores_partial (s : State) (A t i : Nat) (x : Tx) (T : Table) (r : Row)
     (hx : s.txs A = some x) (hact : x.phase = .active)
     (pre post : List Undo) (u : Undo) (hlog : x.undo = pre ++ [u] ++ post)
@@ -336,10 +359,6 @@ theorem rollback_restores_partial (s : State) (A t i : Nat) (x : Tx) (T : Table)
   simp only [rowAt, setTx_tables, release_tables] at h2 h3 ⊢
   rw [h3, h2]
 
-/-- a transaction (id 2) that updated row 0, deleted row 1 and inserted row 2 — each row named once -/
-def sThree : State :=
-  run s0 (setupIdx ++ [.insert 0 [2, 2], .begin, .txUpdate 2 0 (.idEq 0) [(0, 4)], .txDelete 2 0 (.idEq 1), .txInsert 2 0 [3, 3]])
-
 /-- non-vacuity of `rollback_restores_partial`: the three cases of `undoRow`, and the index-served
     queries after the rollback -/
 example :
@@ -351,6 +370,130 @@ example :
 example :
     ((rollback sThree 2).1.tables 0).map (fun T => (select T (.ge 0 0), select T (.eq 0 1), select T (.eq 0 4))) =
       some ([(0, [1, 1]), (1, [2, 2])], [(0, [1, 1])], []) := by decide
+
+/-- `rollback_restores`, run level.  Take ANY sequence `ops` of statements of any number of
+    interleaved transactions, non-transactional statements, index DDL, clock ticks and sweeps,
+    starting from the empty engine, that is `calm`: (a) no lock expires (after every `tick` every
+    lock in the table is still within its timeout) and (b) no index is created or dropped on a
+    table while a transaction that has written that table is open.  Let A be open at the end.
+    Then `rollback A`
+      (0) answers `Ok` (no undo entry fails);
+      (1) leaves every row A ever wrote with exactly the live content it had just BEFORE A's first
+          write to it (`p` = the statements before that write; a row A inserted is dead again) —
+          whatever chain of inserts / updates / deletes A applied to it since;
+      (2) leaves every other row of every table — committed or uncommitted work of anybody else —
+          exactly as it is;
+      (3) leaves every index exact: every index-answered `select` equals the full-scan answer of
+          the restored tables;
+      (4) touches no other transaction's undo log and no other transaction's locks.
+    Together with `written_row_untouched_by_others` (between A's first write and the rollback no
+    statement of anybody else changes the row) this is: "as if none of A's statements had run".
+    The two excluded situations are exactly the known findings: `commit_permanent_vs_later_rollback_witness`
+    / `lock_expiry_rollback_index_witness` (a lock expired) and `rollback_index_restore_witness`
+    (index created while the writer was open). -/
+theorem rollback_restores (a b : Nat) (ops : List Op) (A : Nat)
+    (hcalm : calm (init a b) ops = true) (hopen : gate (run (init a b) ops) A = none) :
+    let sf := run (init a b) ops
+    let s' := (rollback sf A).1
+    (rollback sf A).2 = .ok ∧
+    (∀ p op q t i, ops = p ++ op :: q → gate (run (init a b) p) A = none →
+        ¬Names (run (init a b) p) A t i → Names (run (init a b) (p ++ [op])) A t i →
+        liveAt s' t i = liveAt (run (init a b) p) t i) ∧
+    (∀ t i, ¬Names sf A t i → rowAt s' t i = rowAt sf t i) ∧
+    (∀ t T, s'.tables t = some T → ∀ cond, select T cond = scanAnswer T cond) ∧
+    (∀ B, B ≠ A → s'.txs B = sf.txs B) ∧
+    (∀ t i l, sf.locks t i = some l → l.tx ≠ A → s'.locks t i = some l) := by
+  intro sf s'
+  have hinv : Inv sf := inv_run (inv_init a b) ops hcalm
+  obtain ⟨xf, hxf⟩ := gate_none hopen
+  have hunnamed : ∀ (s : State) (x : Tx) t i, s.txs A = some x → ¬Names s A t i →
+      restoredRow s x.undo t i = rowAt s t i := by
+    intro s x t i hx hn
+    unfold restoredRow
+    rw [not_names_filter hx hn]
+    cases hT : s.tables t with
+    | none => simp [ncolsAt, rowAt, hT]
+    | some T =>
+      simp only [ncolsAt, hT, Option.map_some, rowAt, Option.bind_some]
+      cases T.rows[i]? <;> rfl
+  refine ⟨rollback_ok hinv hopen, ?_, ?_, ?_, ?_, ?_⟩
+  · intro p op q t i hops hgp hnp hn1
+    have hsplit : p ++ op :: q = (p ++ [op]) ++ q := by simp
+    have hsf : sf = run (run (init a b) (p ++ [op])) q := by
+      show run (init a b) ops = _
+      rw [hops, hsplit, run_append]
+    have hc := hcalm
+    rw [hops] at hc
+    obtain ⟨hcp, hcq⟩ := calm_append hc
+    simp only [calm, Bool.and_eq_true] at hcq
+    have hs1 : run (init a b) (p ++ [op]) = (step (run (init a b) p) op).1 := by
+      rw [run_append]; rfl
+    have hip : Inv (run (init a b) p) := inv_run (inv_init a b) p hcp
+    have hi1 : Inv (run (init a b) (p ++ [op])) := by rw [hs1]; exact (step_ok hip op hcq.1).inv
+    obtain ⟨xp, hxp⟩ := gate_none hgp
+    obtain ⟨x1, hx1, _⟩ := id hn1
+    have k1 := (step_keeps hip hcq.1 hxp (by rw [← hs1]; exact hx1)).2 t i (by rw [← hs1]; exact hn1)
+    rw [← hs1, hunnamed _ _ t i hxp hnp] at k1
+    have hxf' : (run (run (init a b) (p ++ [op])) q).txs A = some xf := by rw [← hsf]; exact hxf
+    have k2 := run_keeps hi1 (by rw [hs1]; exact hcq.2) hx1 hn1 hxf'
+    rw [← hsf] at k2
+    show liveOf (rowAt (rollback sf A).1 t i) = _
+    rw [rowAt_rollback hopen hxf, k2, k1]
+    rfl
+  · intro t i hn
+    show rowAt (rollback sf A).1 t i = _
+    rw [rowAt_rollback hopen hxf, hunnamed _ _ t i hxf hn]
+  · intro t T hT cond
+    exact select_eq_scan T ((stepOK_rollback hinv A).inv.idx t T hT) cond
+  · intro B hB
+    show (rollback sf A).1.txs B = _
+    rw [rollback_form hopen hxf]
+    simp only [setTx_txs, hB, ↓reduceIte, release_txs]
+    rw [(foldl_applyUndo_fields _ (sf, 0)).2.2.2.2.2]
+  · intro t i l hl hne
+    show (rollback sf A).1.locks t i = _
+    rw [rollback_form hopen hxf]
+    simp only [setTx_locks]
+    exact release_keeps (by rw [(foldl_applyUndo_fields _ (sf, 0)).1]; exact hl) hne
+
+/-- Between A's first write of a row and the end of A, nobody else changes that row: in a calm
+    run, a statement that is not A's own (another transaction's statement, commit or rollback, a
+    non-transactional statement, DDL, a sweep) leaves every row named in open A's undo log
+    exactly as it is — as long as A is still open afterwards. -/
+theorem written_row_untouched_by_others (a b : Nat) (ops : List Op) (op : Op) (A t i : Nat)
+    (hcalm : calm (init a b) (ops ++ [op]) = true) (hn : Names (run (init a b) ops) A t i)
+    (ha : actor op ≠ some A) (hopen : gate (step (run (init a b) ops) op).1 A = none) :
+    rowAt (step (run (init a b) ops) op).1 t i = rowAt (run (init a b) ops) t i := by
+  obtain ⟨hc1, hc2⟩ := calm_append hcalm
+  simp only [calm, Bool.and_eq_true] at hc2
+  obtain ⟨x, hx⟩ := gate_none hopen
+  exact step_named_row_untouched (inv_run (inv_init a b) ops hc1) hc2.1 hn ha (by rw [hx]; simp)
+
+set_option maxRecDepth 8000 in
+/-- non-vacuity of `rollback_restores` / `written_row_untouched_by_others`: `calmOps` is a calm
+    script with DDL, a tick, three interleaved transactions (A = 3 open with a chain
+    update-update-delete on row 0 and insert-update on row 4; B = 4 open with an uncommitted insert
+    and update; C = 6 committed), non-transactional statements and a lock conflict.  `p` = its
+    first 9 statements, `op` = A's first update of row 0. -/
+example : calm s0 calmOps = true ∧ gate (run s0 calmOps) 3 = none ∧ gate (run s0 (calmOps.take 9)) 3 = none ∧
+    calmOps = calmOps.take 9 ++ .txUpdate 3 0 (.idEq 0) [(0, 4)] :: calmOps.drop 10 := by decide
+
+set_option maxRecDepth 8000 in
+example : ¬Names (run s0 (calmOps.take 9)) 3 0 0 ∧
+    Names (run s0 (calmOps.take 9 ++ [.txUpdate 3 0 (.idEq 0) [(0, 4)]])) 3 0 0 ∧
+    ((run s0 calmOps).txs 3).map (·.undo.length) = some 5 ∧
+    (runRes s0 calmOps)[18]? = some (.err .lockConflict) := by decide
+
+set_option maxRecDepth 8000 in
+example : liveAt (run s0 (calmOps.take 9)) 0 0 = some [1, 1] ∧ liveAt (run s0 calmOps) 0 0 = none ∧
+    liveAt (rollback (run s0 calmOps) 3).1 0 0 = some [1, 1] := by decide
+
+set_option maxRecDepth 8000 in
+example :
+    ((run s0 calmOps).tables 0).map (scanAnswer · .all) = some [(1, [2, 9]), (2, [8, 1]), (3, [7, 7]), (4, [5, 0])] ∧
+    ((rollback (run s0 calmOps) 3).1.tables 0).map (scanAnswer · .all) = some [(0, [1, 1]), (1, [2, 9]), (2, [8, 1]), (3, [7, 7])] ∧
+    ((rollback (run s0 calmOps) 3).1.tables 0).map (select · (.ge 0 0)) = some [(0, [1, 1]), (1, [2, 9]), (2, [8, 1]), (3, [7, 7])] := by
+  decide
 
 /-- REGRESSION WITNESS on the code before dcf916e8 (`runOld`): `rollback_restores` was false even
     without timeouts and DDL.  A inserts a row (no lock was taken), B deletes that uncommitted
@@ -380,7 +523,8 @@ theorem rollback_index_restore_witness :
     (fin.tables 0).map (scanAnswer · (.le 0 1)) = some [(0, [1, 1])] ∧
     (fin.tables 0).map (select · (.le 0 1)) = some [] ∧
     (fin.tables 0).map (scanAnswer · (.eq 0 1)) = some [(0, [1, 1])] ∧
-    (fin.tables 0).map (select · (.eq 0 1)) = some [] := by decide
+    (fin.tables 0).map (select · (.eq 0 1)) = some [] ∧
+    calm s0 ops = false := by decide
 
 /-- REGRESSION WITNESS on the code before c322e794 (`runOld`): the undo of an update / delete
     re-applied hash AND b-tree entry changes for every listed column whether or not that index
